@@ -15,9 +15,11 @@ import (
 
 func init() { register("blockrepo", runBlockRepo) }
 
-func testConfig() config.Config {
+func testConfig() config.Config { return testConfigNet(bitcoin.MainNet) }
+
+func testConfigNet(net bitcoin.Network) config.Config {
 	startHash := "0000000000000000000000000000000000000000000000000000000000000000"
-	cfg, err := config.NewConfig(bitcoin.MainNet, true, "test", "Tokenized Test", startHash, 8,
+	cfg, err := config.NewConfig(net, true, "test", "Tokenized Test", startHash, 8,
 		2000, 10, 10, 1000, true)
 	if err != nil {
 		panic(err)
@@ -28,9 +30,14 @@ func testConfig() config.Config {
 // runBlockRepo drives the real BlockRepository (through a real Node, for GetHeaders/BlockHash).
 func runBlockRepo(c *Case) ([]Obs, any) {
 	ctx := context.Background()
-	u := NewUniverse()
+	// cfg.testnet: the node is configured for a test network (another genesis header, inserted by another branch of Load)
+	testnet := cfgInt(c, "testnet", 0) != 0
+	u := NewUniverseNet(testnet)
 	store := NewVStore(cfgInt(c, "rm_err", 1) != 0)
 	cfg := testConfig()
+	if testnet {
+		cfg = testConfigNet(bitcoin.TestNet)
+	}
 	node := spynode.NewNode(cfg, store, nil, nil)
 	repo := node.VerifBlocks()
 	if err := repo.Load(ctx); err != nil {
@@ -55,6 +62,13 @@ func runBlockRepo(c *Case) ([]Obs, any) {
 		snapshots = append(snapshots, ids)
 	}
 	snapshot()
+	// the model's block 0 carries the main-net genesis time stamp: the test-net genesis time is reported as that
+	normTime := func(t int64) int64 {
+		if testnet && t == 1296688602 {
+			return 1231006505
+		}
+		return t
+	}
 	nextTime := func(id int64) int64 { return 1300000000 + id*600 }
 	for _, raw := range c.Ops {
 		op := decodeOp(raw)
@@ -202,19 +216,19 @@ func runBlockRepo(c *Case) ([]Obs, any) {
 				if err != nil {
 					return Obs{ERR}
 				}
-				return Obs{OK, int64(t)}
+				return Obs{OK, normTime(int64(t))}
 			case "nodetime":
 				t, err := node.Time(ctx, int(op.Int(0)))
 				if err != nil {
 					return Obs{ERR}
 				}
-				return Obs{OK, int64(t)}
+				return Obs{OK, normTime(int64(t))}
 			case "header": // -1 means tip
 				h, err := repo.Header(ctx, int(op.Int(0)))
 				if err != nil {
 					return Obs{ERR}
 				}
-				return Obs{OK, u.HeaderID(h), u.ID(&h.PrevBlock), int64(h.Timestamp)}
+				return Obs{OK, u.HeaderID(h), u.ID(&h.PrevBlock), normTime(int64(h.Timestamp))}
 			case "getheaders": // height max -> request height, start height, ids
 				hs, err := node.GetHeaders(ctx, int(op.Int(0)), int(op.Int(1)))
 				if err != nil {
